@@ -97,6 +97,10 @@ def make_models(prog=None):
     return M
 
 
+# kinds for which docs/binary.md does not pin the byte layout down (UniqueId: byte order / rotation of the fields are not stated;
+# SecurityCapabilities: no section): decided by write -> read only, never against the spec encoder
+NOSPEC = ('UniqueId', 'SecurityCapabilities')
+
 HEADER = b'<roblox!\x89\xff\x0d\x0a\x1a\x0a\x00\x00'
 
 
@@ -526,6 +530,9 @@ def explore(prog, case, stats=None, max_paths=50000, budget_s=600, max_viol=6, m
         ex = Exec(prog, M, dec, stats)
         ex.world = World()
         ex.range_limit = case.get('range_limit', 64)
+        if ex.range_limit > 64:
+            import sys as _sys
+            _sys.setrecursionlimit(max(_sys.getrecursionlimit(), 60 * ex.range_limit))
         ex.max_steps = max(ex.max_steps, 400 * ex.range_limit)
         try:
             r = run_case(H, ex, case)
@@ -591,6 +598,9 @@ def model_view(H, m, v):
                 out.append(r)
         return out
     if isinstance(v, Enum):
+        if v.ename == 'Variant' and v.variant == 'OptionalCFrame':
+            o = v.f[0]
+            return {'OptionalCFrame': None} if o.variant == 'None' else {'CFrame': model_view(H, m, o.f[0])}
         if v.ename == 'Variant' and v.variant == 'Font':
             f_ = v.f[0]
             g_ = lambda nm: f_.f[H.prog.structs['Font'].index(nm)]
@@ -778,10 +788,13 @@ PROP_TYPES = {
     # name: (type id, list of (field, kind)) -- one symbolic value per instance is a dict field -> z3 term
     'Bool': 0x02, 'Int32': 0x03, 'Float32': 0x04, 'Float64': 0x05, 'UDim': 0x06, 'UDim2': 0x07, 'Ray': 0x08, 'Faces': 0x09, 'Axes': 0x0a,
     'BrickColor': 0x0b, 'Color3': 0x0c, 'Vector2': 0x0d, 'Vector3': 0x0e, 'Enum': 0x12, 'Ref': 0x13, 'Vector3int16': 0x14, 'NumberRange': 0x17,
-    'Content': 0x22, 'Font': 0x20, 'Rect': 0x18, 'PhysicalProperties': 0x19, 'Color3uint8': 0x1a, 'Int64': 0x1b, 'String': 0x01, 'NumberSequence': 0x15, 'ColorSequence': 0x16, 'CFrame': 0x10,
+    'Content': 0x22, 'Font': 0x20, 'OptionalCFrame': 0x1e, 'UniqueId': 0x1f, 'SecurityCapabilities': 0x21, 'Rect': 0x18, 'PhysicalProperties': 0x19, 'Color3uint8': 0x1a, 'Int64': 0x1b, 'String': 0x01, 'NumberSequence': 0x15, 'ColorSequence': 0x16, 'CFrame': 0x10,
 }
 FIELDS = {
     'Content': [],
+    'OptionalCFrame': [('px', 32), ('py', 32), ('pz', 32)] + [('m%d' % i, 32) for i in range(9)],
+    'UniqueId': [('index', 32), ('time', 32), ('random', 64)],
+    'SecurityCapabilities': [('v', 64)],
     'Font': [('fam', 8), ('face', 8)],
     'Bool': [('v', 'bool')], 'Int32': [('v', 32)], 'Float32': [('v', 32)], 'Float64': [('v', 64)], 'UDim': [('scale', 32), ('offset', 32)],
     'UDim2': [('xs', 32), ('xo', 32), ('ys', 32), ('yo', 32)], 'Ray': [('ox', 32), ('oy', 32), ('oz', 32), ('dx', 32), ('dy', 32), ('dz', 32)],
@@ -862,6 +875,21 @@ def spec_prop_values(kind, vals, opts=None):
             for _ in range(n):
                 out += le(v['t'], 4) + le(v['r'], 4) + le(v['g'], 4) + le(v['b'], 4) + B(bytes(4))
         return out
+    if kind == 'OptionalCFrame':
+        # 0x10 marker, the CFrame array (general matrices for present values; the identity id 0x02 and position 0 for absent ones, as
+        # the document's example shows), 0x02 marker, one bool per value
+        out = B([0x10])
+        zero = z3.BitVecVal(0, 32)
+        for v, pres in zip(vals, opts['present']):
+            if pres:
+                out += B([0])
+                for i in range(9):
+                    out += le(v['m%d' % i], 4)
+            else:
+                out += B([0x02])
+        pos = lambda f: [(v[f] if pres else zero) for v, pres in zip(vals, opts['present'])]
+        out += f32col(pos('px')) + f32col(pos('py')) + f32col(pos('pz'))
+        return out + B([0x02]) + B([1 if pres else 0 for pres in opts['present']])
     if kind == 'Font':
         # family (String), weight u16 LE, style u8, cached face id (String, possibly empty)
         out = []
@@ -960,6 +988,16 @@ def expected_variant(H, kind, v, opts, i):
         n = opts['len'][i]
         kp = ('Struct', 'ColorSequenceKeypoint', dict(time=f(v['t']), color=('Struct', 'Color3', dict(r=f(v['r']), g=f(v['g']), b=f(v['b'])))))
         return V('ColorSequence', ('Struct', 'ColorSequence', dict(keypoints=('Vec', [kp] * n))))
+    if kind == 'OptionalCFrame':
+        if not opts['present'][i]:
+            return V('OptionalCFrame', ('Enum', 'Option', 'None', []))
+        rows = [vec3(v['m%d' % (3 * r)], v['m%d' % (3 * r + 1)], v['m%d' % (3 * r + 2)]) for r in range(3)]
+        cf = ('Struct', 'CFrame', dict(position=vec3(v['px'], v['py'], v['pz']), orientation=('Struct', 'Matrix3', dict(x=rows[0], y=rows[1], z=rows[2]))))
+        return V('OptionalCFrame', ('Enum', 'Option', 'Some', [cf]))
+    if kind == 'UniqueId':
+        return V('UniqueId', ('Struct', 'UniqueId', dict(index=('Sc', v['index'], 'u32'), time=('Sc', v['time'], 'u32'), random=('Sc', v['random'], 'i64'))))
+    if kind == 'SecurityCapabilities':
+        return V('SecurityCapabilities', ('Struct', 'SecurityCapabilities', dict(value=('Sc', v['v'], 'u64'))))
     if kind == 'Font':
         wnames = ['Thin', 'ExtraLight', 'Light', 'Regular', 'Medium', 'SemiBold', 'Bold', 'ExtraBold', 'Heavy']
         face = ('Enum', 'Option', 'Some', [('Raw', StrV([Sc(v['face'], 'u8')], None))]) if opts['face'][i] else ('Enum', 'Option', 'None', [])
